@@ -488,6 +488,9 @@ fn polyval(q: &[C64], x: f64) -> (C64, C64, f64, f64) {
 fn gen_case(rng: &mut Rng, complex: bool, clamped: bool, n: usize, mode: DataMode) -> Case {
     let xs = gen_knots(rng, n);
     let scale = rng.log10(-2.0, 2.0);
+    // one case in 32 (chosen from the knots, so that the other draws stay as they were): ordinates of
+    // 1e154 ... 1e156 - the spline is linear in its data, every quantity is representable, a squared ordinate is not
+    let scale = if (xs[0].to_bits() >> 6) % 32 == 0 { scale * 1e154 * 10f64.powf(2.3) } else { scale };
     let cplx = |rng: &mut Rng, s: f64| C64::new(s * rng.r(-1.0, 1.0), if complex { s * rng.r(-1.0, 1.0) } else { 0.0 });
     let mut q = vec![];
     let (ys, slopes) = match mode {
@@ -855,6 +858,9 @@ fn run_case(rep: &mut Report, rng: &mut Rng, idx: u64, n: usize, mode: DataMode,
     let complex = idx % 2 == 1;
     let clamped = (idx / 2) % 2 == 1;
     let c = gen_case(rng, complex, clamped, n, mode);
+    if c.ys.iter().any(|y| y.norm() > 1e150) {
+        rep.count("splines_with_ordinates_above_1e150", 1);
+    }
     if complex {
         run_spline::<C64>(rep, &c, tag);
     } else {
@@ -1009,6 +1015,7 @@ pub fn stages(ctx: &Ctx) -> Vec<Stage> {
 
 pub fn thresholds(ctx: &Ctx, rep: &Report) -> Vec<Threshold> {
     let mut t = vec![];
+    t.push(Threshold { what: "splines through ordinates above 1e150".into(), required: ctx.tier.pick(150.0, 2_500.0), observed: rep.counter("splines_with_ordinates_above_1e150") as f64 });
     for name in ["free/f64", "free/complex", "clamped/f64", "clamped/complex"] {
         t.push(Threshold { what: format!("{} splines compared with the reference", name), required: ctx.tier.pick(1_200.0, 20_000.0), observed: rep.counter(&format!("{}/splines", name)) as f64 });
         t.push(Threshold { what: format!("{}: observations one ulp left and right of interior knots", name), required: ctx.tier.pick(16_000.0, 300_000.0), observed: (rep.counter(&format!("{}/points_knot-1ulp", name)) + rep.counter(&format!("{}/points_knot+1ulp", name))) as f64 });
